@@ -72,7 +72,13 @@ def strategy(tier):
         'kind': st.sampled_from(['p_remote', 'p_remote', 'p_process', 'p_thread']), 'scenario': st.just('persist'),
         'items': st.builds(lambda a, b: a + ['UNPICKLABLE'] + b, st.lists(st.sampled_from([1, 2]), max_size=1), st.lists(st.sampled_from([3, 'UNPICKLABLE', 'POISON']), max_size=2)),
         'close': st.booleans(), 'pipe': st.sampled_from(['default', 'default', 'supplied']), 'inject': st.just({'mode': 'none'}), 'observe': _observe})
-    return st.one_of(one, one, one, pers, pers, own, big, bigpoll, stu, unp)
+    # a partial result the CHILD cannot even serialise (a lock): the worker ends there with the pickling TypeError, the counter of the child is one
+    # ahead of what reached the wire (round-4 seed C01-m8: an assert on the two counters killed the parent's forwarding thread)
+    uns = st.fixed_dictionaries({
+        'kind': st.sampled_from(['p_remote', 'p_remote', 'p_process']), 'scenario': st.just('persist'),
+        'items': st.builds(lambda a, b: a + ['UNSENDABLE'] + b, st.lists(st.sampled_from([1, 2]), max_size=2), st.lists(st.sampled_from([3, 'POISON']), max_size=1)),
+        'close': st.booleans(), 'pipe': st.sampled_from(['default', 'default', 'supplied']), 'inject': st.just({'mode': 'none'}), 'observe': _observe})
+    return st.one_of(one, one, one, pers, pers, own, big, bigpoll, stu, unp, uns)
 
 
 def exhaustive(tier, shard, nshards):
@@ -148,6 +154,10 @@ def expected(case):
             a_results = list(range(0, len(pre) + 1)) if mode != 'none' else None
         else:
             a_results = [len(pre)] if mode == 'none' else list(range(0, len(pre) + 1))
+        if 'UNSENDABLE' in pre and kind in ('p_remote', 'p_process'):
+            # the child's own attempt to pickle the result raises TypeError inside its run loop: that is the exception that ends the worker
+            errs[:] = [{'exc': 'TypeError', 'args': '*'}]
+            a_results = None
         if 'UNPICKLABLE' in pre and kind == 'p_remote':
             # a partial result that the parent cannot rebuild travels on the same connection as the final outcome: a parent that gives up
             # on the stream has no exception to report (shape B with error None); what it may not do is stay without an outcome
@@ -186,6 +196,8 @@ def run_case(case, ctx):
     out.label('kind:' + kind, 'mode:' + mode, 'scenario:' + case['scenario'].split(':')[0])
     if 'UNPICKLABLE' in (case.get('items') or []):
         out.label('unrebuildable_partial_result')
+    if 'UNSENDABLE' in (case.get('items') or []):
+        out.label('unsendable_partial_result')
     site = (mode + '@' + IC.region_of(obs.get('reached'))) if mode in ('terminate', 'kill') else mode + ':' + kind + ':' + case['scenario'].split(':')[-1 if case['scenario'].startswith('raise:') else 0]
     if obs['ctor'] != 'ok':
         out.obs = {'ctor': obs['ctor']}
@@ -264,7 +276,7 @@ def run_case(case, ctx):
     if he is True:
         if res not in ('unread', None):
             out.viol('shape_mixed', site, f'has_error True but result {res!r}')
-        if err != 'unread' and err not in errs:
+        if err != 'unread' and err not in errs and not (isinstance(err, dict) and {'exc': err.get('exc'), 'args': '*'} in errs):
             if err is None:
                 out.viol('error_missing', site, f'has_error True, error None although the worker was neither killed nor its exception untransferable (allowed: {errs})')
             else:
